@@ -52,6 +52,26 @@ type PadTagMsg struct {
 	Tag string
 }
 
+// UnreadableMsg encodes fine and is rejected by its reader: the receiving side cannot decode it (as with a version skew).
+type UnreadableMsg struct{ N int32 }
+
+func init() {
+	vivid.RegisterCustomMessage[*UnreadableMsg]("verifUnreadableMsg",
+		func(message any, r *messages.Reader, codec messages.Codec) error {
+			var n int32
+			if err := r.ReadInto(&n); err != nil {
+				return err
+			}
+			return errors.New("verifUnreadableMsg: this side cannot decode it")
+		},
+		func(message any, w *messages.Writer, codec messages.Codec) error {
+			return w.WriteFrom(message.(*UnreadableMsg).N)
+		})
+}
+
+// Unreadable lists registry names whose reader rejects every input by design (excluded from round-trip expectations).
+var Unreadable = map[string]bool{"verifUnreadableMsg": true}
+
 // EmptyMsg is a registered message without fields: its wire body is empty.
 type EmptyMsg struct{}
 
@@ -295,6 +315,7 @@ func Corpus() map[string][]any {
 	c["verifCustomMsg"] = []any{&CustomMsg{}, &CustomMsg{N: math.MinInt32, T: Strings[3]}}
 	c["verifBytesMsg"] = []any{&BytesMsg{}, &BytesMsg{ID: "b", B: []byte{0, 1, 2, 255}}, &BytesMsg{ID: Strings[3], B: bytes.Repeat([]byte{7}, 5000)}}
 	c["verifEmptyMsg"] = []any{&EmptyMsg{}}
+	c["verifUnreadableMsg"] = []any{&UnreadableMsg{N: 1}}
 	c["verifPadTagMsg"] = []any{&PadTagMsg{}, &PadTagMsg{Pad: []byte{1, 2}, Tag: "t"}, &PadTagMsg{Pad: bytes.Repeat([]byte{3}, 70000), Tag: strings.Repeat("T", 255)}}
 	c["verifShortTagMsg"] = []any{&ShortTagMsg{}, &ShortTagMsg{Tag: "t"}, &ShortTagMsg{Tag: strings.Repeat("T", 255)}}
 	return c
